@@ -55,6 +55,7 @@ func observeFormat(o *obsWriter, pfx, src string, lineMode bool) {
 		}
 		o.kv(pfx+"r", b2s(ok))
 	}
+	crossProcess(o, pfx, src, lineMode, first) // formatfam3.go: every 400th case also in a fresh process
 	// history independence: every 40th case, the same source after a reset of the interning table
 	// (all other cases run with the table as left by the cases before them)
 	formatCount++
